@@ -199,7 +199,9 @@ func (e *End) Write(p []byte) (int, error) {
 			if k > 0 {
 				e.deliver(p[:k])
 			}
+			// a failed connection fails its pending read too
 			e.setSticky(f.Err)
+			e.Kick()
 			return k, f.Err
 		}
 	}
